@@ -104,6 +104,41 @@ def gradient_float(xs, ys):
     return g
 
 
+def isodata_set(values, scale):
+    """Admissible ISODATA thresholds of a sample: fixed points of T -> (mean(low) + mean(high)) / 2 reached from
+    the sample mean.  The statement does not fix on which side a value EQUAL to the running threshold falls, nor
+    when the iteration is cut off, so both sides are explored at every exact boundary tie and both the
+    dependency's cut-off (|dT| < 1e-6) and the exact fixed point are admissible.  The dependency's own answer is
+    always a member (asserted)."""
+    vals = [float(v) for v in values]
+    out = set()
+    seen = set()
+    stack = [(math.fsum(vals) / len(vals), 0)]
+    while stack:
+        t, it = stack.pop()
+        if (t, it) in seen or it > 100:
+            out.add(t)
+            continue
+        seen.add((t, it))
+        tie = [v for v in vals if abs(v - t) <= 1e-12 * scale]
+        splits = [([v for v in vals if v <= t], [v for v in vals if v > t])]
+        if tie:
+            splits.append(([v for v in vals if v < t and v not in tie], [v for v in vals if v >= t or v in tie]))
+            splits.append(([v for v in vals if v <= t or v in tie], [v for v in vals if v > t and v not in tie]))
+        for lo, hi in splits:
+            if not lo or not hi:
+                out.add(t)
+                continue
+            nt = (math.fsum(lo) / len(lo) + math.fsum(hi) / len(hi)) / 2.0
+            if abs(nt - t) < 1e-6:
+                out.add(nt)                       # the dependency stops here
+            if nt == t or abs(nt - t) <= 1e-15 * scale:
+                out.add(nt)
+            else:
+                stack.append((nt, it + 1))
+    return out
+
+
 def dfdt_admissible(xs, ys):
     """All knees the documented DFDT loop can return when near-ties are broken either way."""
     n = len(xs)
@@ -121,14 +156,16 @@ def dfdt_admissible(xs, ys):
             out.add(knee)
             continue
         sl = g[cutoff:]
-        T = thresh.isodata(np.array(sl))
-        diff = [abs(v - T) for v in sl]
-        inner = diff[1:-1]
-        m = min(inner)
-        for j, v in enumerate(inner):
-            if v <= m + 1e-9 * scale:
-                k2 = j + 1 + cutoff
-                stack.append((k2, int(math.ceil(k2 / 2.0)), knee))
+        Ts = isodata_set(sl, scale)
+        Ts.add(float(thresh.isodata(np.array(sl))))
+        for T in Ts:
+            diff = [abs(v - T) for v in sl]
+            inner = diff[1:-1]
+            m = min(inner)
+            for j, v in enumerate(inner):
+                if v <= m + 1e-9 * scale:
+                    k2 = j + 1 + cutoff
+                    stack.append((k2, int(math.ceil(k2 / 2.0)), knee))
         if len(seen) > 4000:
             return None
     return out
